@@ -1,7 +1,198 @@
-From Coq Require Import ZArith List Reals Lra Lia Bool.
+(* Proofs/Bisect.v — lemmas about Model/Solvers.v (bisection) and the calculus of
+   the dense polynomial type used by C06 and C07. *)
+From Coq Require Import ZArith List Reals Lra Lia Bool Arith Psatz.
+From Coquelicot Require Import Coquelicot.
 From SV Require Import Base.Num Base.Outcome Model.Poly Model.Solvers.
 Import ListNotations.
 Local Open Scope R_scope.
+
+(* ------------------------------------------------------------------------- *)
+(* generic facts (every Num instance)                                         *)
+(* ------------------------------------------------------------------------- *)
+Section Generic.
+  Context {T : Type} {NT : Num T}.
+  Variables (f : T -> res T) (tol : T) (cap : nat).
+
+  Definition bis_mid (s : bstate T) : T := ndiv (nadd (bs_lower s) (bs_upper s)) ntwo.
+
+  (* what one loop body does, read off the definition *)
+  Lemma bis_body_ok s s' b : bis_body f tol cap s = Ok (s', b) ->
+    exists vl vm, f (bs_lower s) = Ok vl /\ f (bis_mid s) = Ok vm /\
+      bs_iter s' = bs_iter s /\
+      b = (bs_exact s' || (Nat.ltb 0 (bs_iter s) && nltb (nabs (bs_err s')) tol) || Nat.leb cap (bs_iter s)) /\
+      ( (nltb (nmul vl vm) n0 = true /\ bs_lower s' = bs_lower s /\ bs_upper s' = bis_mid s /\
+         bs_x s' = bis_mid s /\ bs_exact s' = false)
+     \/ (nltb (nmul vl vm) n0 = false /\ nltb n0 (nmul vl vm) = true /\ bs_lower s' = bis_mid s /\
+         bs_upper s' = bs_upper s /\ bs_x s' = bis_mid s /\ bs_exact s' = false)
+     \/ (nltb (nmul vl vm) n0 = false /\ nltb n0 (nmul vl vm) = false /\ bs_lower s' = bs_lower s /\
+         bs_upper s' = bs_upper s /\ bs_x s' = (if neqb vl n0 then bs_lower s else bis_mid s) /\
+         bs_exact s' = true) ).
+  Proof.
+    unfold bis_body. fold (bis_mid s).
+    destruct (f (bs_lower s)) as [vl|e|w]; cbn [bind]; try discriminate.
+    destruct (f (bis_mid s)) as [vm|e|w]; cbn [bind]; try discriminate.
+    intro H. exists vl, vm. split; [reflexivity|]. split; [reflexivity|].
+    destruct (nltb (nmul vl vm) n0) eqn:E1; [|destruct (nltb n0 (nmul vl vm)) eqn:E2];
+      injection H as <- <-; cbn [bs_iter bs_lower bs_upper bs_x bs_err bs_exact];
+      (split; [reflexivity|]); (split; [reflexivity|]).
+    - left. repeat split; reflexivity.
+    - right; left. repeat split; reflexivity.
+    - right; right. repeat split; reflexivity.
+  Qed.
+
+  Lemma bis_body_no_panic s : (forall x, no_panic (f x)) -> no_panic (bis_body f tol cap s).
+  Proof.
+    intros Hf w. unfold bis_body.
+    destruct (f (bs_lower s)) as [vl|e|w'] eqn:E1; cbn [bind]; try discriminate.
+    - destruct (f (ndiv (nadd (bs_lower s) (bs_upper s)) ntwo)) as [vm|e|w'] eqn:E2; cbn [bind]; try discriminate.
+      intros _. exact (Hf _ w' E2).
+    - intros _. exact (Hf _ w' E1).
+  Qed.
+
+  (* loop rule: the result is produced by a last body that broke out, started in a state
+     satisfying every invariant of (body; iter += 1) *)
+  Lemma bis_loop_last (I : bstate T -> Prop) :
+    (forall s s', I s -> bis_body f tol cap s = Ok (s', false) -> I (bs_next s')) ->
+    forall fuel s r, I s -> bis_loop f tol cap fuel s = Ok r ->
+    exists s0, I s0 /\ bis_body f tol cap s0 = Ok (r, true).
+  Proof.
+    intros Hstep. induction fuel as [|k IH]; intros s r Hs; cbn [bis_loop];
+      destruct (bis_body f tol cap s) as [[s' brk]|e|w] eqn:Eb; try discriminate; destruct brk.
+    - intro H. injection H as <-. exists s. split; assumption.
+    - discriminate.
+    - intro H. injection H as <-. exists s. split; assumption.
+    - intro H. apply (IH (bs_next s') r); [|exact H]. apply (Hstep s s'); assumption.
+  Qed.
+
+  (* never an endless loop: with iter + fuel >= cap the fuel is never exhausted, and
+     nothing else panics if the target does not *)
+  Lemma bis_loop_no_panic : (forall x, no_panic (f x)) ->
+    forall fuel s, (cap <= bs_iter s + fuel)%nat -> no_panic (bis_loop f tol cap fuel s).
+  Proof.
+    intros Hf. induction fuel as [|k IH]; intros s Hc w; cbn [bis_loop];
+      destruct (bis_body f tol cap s) as [[s' brk]|e|w'] eqn:Eb; try discriminate.
+    - destruct brk; [discriminate|]. exfalso.
+      apply bis_body_ok in Eb. destruct Eb as (vl & vm & _ & _ & _ & Hb & _).
+      symmetry in Hb. apply orb_false_elim in Hb. destruct Hb as [_ Hb].
+      apply Nat.leb_gt in Hb. lia.
+    - intros _. exact (bis_body_no_panic s Hf w' Eb).
+    - destruct brk; [discriminate|].
+      apply bis_body_ok in Eb. destruct Eb as (vl & vm & _ & _ & Hi & Hb & _).
+      symmetry in Hb. apply orb_false_elim in Hb. destruct Hb as [_ Hb].
+      apply Nat.leb_gt in Hb.
+      apply IH. cbn [bs_next bs_iter]. lia.
+    - intros _. exact (bis_body_no_panic s Hf w' Eb).
+  Qed.
+
+  (* the loop counter never exceeds the cap *)
+  Lemma bis_loop_iter_le fuel s r :
+    (bs_iter s <= cap)%nat -> bis_loop f tol cap fuel s = Ok r -> (bs_iter s <= bs_iter r <= cap)%nat.
+  Proof.
+    revert s. induction fuel as [|k IH]; intros s Hs; cbn [bis_loop];
+      destruct (bis_body f tol cap s) as [[s' brk]|e|w'] eqn:Eb; try discriminate;
+      apply bis_body_ok in Eb; destruct Eb as (vl & vm & _ & _ & Hi & Hb & _); destruct brk; try discriminate.
+    - intro H. injection H as <-. lia.
+    - intro H. injection H as <-. lia.
+    - symmetry in Hb. apply orb_false_elim in Hb. destruct Hb as [_ Hb]. apply Nat.leb_gt in Hb.
+      intro H. apply IH in H; cbn [bs_next bs_iter] in *; lia.
+  Qed.
+End Generic.
+
+(* ------------------------------------------------------------------------- *)
+(* the R instance                                                             *)
+(* ------------------------------------------------------------------------- *)
+Lemma gate_R : @gate R RNum = 1 / 10000.
+Proof. unfold gate. cbn [nofdec RNum powerRZ]. simpl. lra. Qed.
+
+Lemma c100_R : @c100 R RNum = 100.
+Proof. reflexivity. Qed.
+
+Lemma bis_mid_R (s : bstate R) : bis_mid s = (bs_lower s + bs_upper s) / 2.
+Proof. reflexivity. Qed.
+
+Lemma nofnat_R (n : nat) : @nofnat R RNum n = INR n.
+Proof. unfold nofnat. cbn [nofZ RNum]. symmetry. apply INR_IZR_INZ. Qed.
+
+(* one body over R *)
+Lemma bis_body_R (f : R -> res R) tol cap s s' b : bis_body f tol cap s = Ok (s', b) ->
+  exists vl vm, f (bs_lower s) = Ok vl /\ f (bis_mid s) = Ok vm /\ bs_iter s' = bs_iter s /\
+    ( (vl * vm < 0 /\ bs_lower s' = bs_lower s /\ bs_upper s' = bis_mid s /\ bs_x s' = bis_mid s /\ bs_exact s' = false)
+   \/ (0 < vl * vm /\ bs_lower s' = bis_mid s /\ bs_upper s' = bs_upper s /\ bs_x s' = bis_mid s /\ bs_exact s' = false)
+   \/ (vl * vm = 0 /\ bs_lower s' = bs_lower s /\ bs_upper s' = bs_upper s /\ bs_exact s' = true /\
+       ((vl = 0 /\ bs_x s' = bs_lower s) \/ (vl <> 0 /\ vm = 0 /\ bs_x s' = bis_mid s))) ).
+Proof.
+  intro H. apply bis_body_ok in H. destruct H as (vl & vm & H1 & H2 & Hi & _ & Hc).
+  exists vl, vm. repeat (split; [assumption|]).
+  cbn [nltb nmul neqb n0 RNum] in Hc.
+  destruct Hc as [(A & B & C & D & E)|[(A & A' & B & C & D & E)|(A & A' & B & C & D & E)]].
+  - left. apply Rltb_true in A. tauto.
+  - right; left. apply Rltb_true in A'. tauto.
+  - right; right. apply Rltb_false in A. apply Rltb_false in A'.
+    assert (Hz : vl * vm = 0) by lra.
+    repeat (split; [assumption|]).
+    destruct (Reqb vl 0) eqn:Ev.
+    + apply Reqb_true in Ev. left. tauto.
+    + apply Reqb_false in Ev. right. split; [assumption|]. split; [|assumption].
+      destruct (Rmult_integral _ _ Hz); [contradiction|assumption].
+Qed.
+
+(* the bracket stays inside the caller's bracket, the candidate inside the bracket *)
+Definition Ibr (lo hi : R) (s : bstate R) : Prop := lo <= bs_lower s /\ bs_lower s <= bs_upper s /\ bs_upper s <= hi.
+
+Lemma Ibr_step (f : R -> res R) tol cap lo hi s s' b :
+  Ibr lo hi s -> bis_body f tol cap s = Ok (s', b) ->
+  Ibr lo hi s' /\ bs_lower s' <= bs_x s' <= bs_upper s' /\ bs_lower s <= bs_x s' <= bs_upper s.
+Proof.
+  intros (A & B & C) H. apply bis_body_R in H. destruct H as (vl & vm & _ & _ & _ & Hc).
+  pose proof (bis_mid_R s) as Hm. unfold Ibr.
+  destruct Hc as [(_ & L & U & X & _)|[(_ & L & U & X & _)|(_ & L & U & _ & [(_ & X)|(_ & _ & X)])]];
+    rewrite L, U, X; try rewrite Hm; lra.
+Qed.
+
+Lemma Ibr_next lo hi s : Ibr lo hi s -> Ibr lo hi (bs_next s).
+Proof. exact (fun H => H). Qed.
+
+Lemma bis_start_Ibr lo init hi : lo <= hi ->
+  Ibr lo hi (bis_start {| b_lower := lo; b_init := init; b_upper := hi |}).
+Proof. intro H. unfold Ibr, bis_start. cbn. lra. Qed.
+
+Lemma init_in (lo init hi : R) :
+  init_out {| b_lower := lo; b_init := init; b_upper := hi |} = false -> lo <= init <= hi.
+Proof.
+  unfold init_out. cbn [b_lower b_init b_upper nltb RNum]. intro H.
+  apply orb_false_elim in H. destruct H as [H1 H2].
+  apply Rltb_false in H1. apply Rltb_false in H2. lra.
+Qed.
+
+(* what an Ok of the loop + gate means *)
+Lemma bisect_run_sound (f : R -> res R) lo init hi tol cap x : lo <= hi ->
+  bisect_run f {| b_lower := lo; b_init := init; b_upper := hi |} tol cap = Ok x ->
+  lo <= x <= hi /\ exists v, f x = Ok v /\ Rabs v < 1 / 10000.
+Proof.
+  intros Hle. unfold bisect_run.
+  destruct (bis_loop f tol cap cap _) as [r|e|w] eqn:El; cbn [bind]; try discriminate.
+  destruct (Nat.leb cap (bs_iter r)); [discriminate|].
+  destruct (f (bs_x r)) as [v|e|w] eqn:Ev; cbn [bind]; try discriminate.
+  destruct (nltb (nabs v) gate) eqn:Eg; [|discriminate].
+  intro H. injection H as <-.
+  destruct (bis_loop_last f tol cap (Ibr lo hi)) with (fuel := cap) (s := bis_start {| b_lower := lo; b_init := init; b_upper := hi |}) (r := r)
+    as (s0 & Hs0 & Hb).
+  - intros s s' Hs Hb. apply Ibr_next. exact (proj1 (Ibr_step f tol cap lo hi s s' false Hs Hb)).
+  - apply bis_start_Ibr; exact Hle.
+  - exact El.
+  - destruct (Ibr_step f tol cap lo hi s0 r true Hs0 Hb) as ((A & B & C) & (D & E) & _).
+    split; [lra|]. exists v. split; [exact Ev|].
+    cbn [nltb nabs RNum] in Eg. apply Rltb_true in Eg. rewrite gate_R in Eg. exact Eg.
+Qed.
+
+Lemma c06_sound : forall (f : R -> res R) lo init hi tol cap x,
+  bisection f {| b_lower := lo; b_init := init; b_upper := hi |} tol cap = Ok x ->
+  lo <= x <= hi /\ exists v, f x = Ok v /\ Rabs v < 1 / 10000.
+Proof.
+  intros f lo init hi tol cap x. unfold bisection.
+  destruct (init_out _) eqn:Ei; [discriminate|].
+  apply init_in in Ei. apply bisect_run_sound. lra.
+Qed.
 
 Lemma c06_init_rejected : forall (f : R -> res R) lo init hi tol cap,
   init < lo \/ hi < init ->
@@ -11,4 +202,335 @@ Proof.
   destruct H as [H|H].
   - apply Rltb_true in H. rewrite H. reflexivity.
   - apply Rltb_true in H. rewrite H, orb_true_r. reflexivity.
+Qed.
+
+Lemma c06_reversed_rejected : forall (f : R -> res R) lo init hi tol cap,
+  hi < lo -> bisection f {| b_lower := lo; b_init := init; b_upper := hi |} tol cap = Err EXInitOutOfBounds.
+Proof.
+  intros f lo init hi tol cap H. apply c06_init_rejected.
+  destruct (Rlt_le_dec init lo); [left; assumption|right; lra].
+Qed.
+
+(* ------------------------------------------------------------------------- *)
+(* totality (every instance, floats included)                                 *)
+(* ------------------------------------------------------------------------- *)
+Lemma bisect_run_no_panic {T} {NT : Num T} (f : T -> res T) b tol cap :
+  (forall x, no_panic (f x)) -> no_panic (bisect_run f b tol cap).
+Proof.
+  intros Hf. unfold bisect_run. apply bind_no_panic.
+  - apply bis_loop_no_panic; [exact Hf|]. cbn. lia.
+  - intros s _. destruct (Nat.leb cap (bs_iter s)); [discriminate|].
+    apply bind_no_panic; [apply Hf|]. intros v _. destruct (nltb (nabs v) gate); discriminate.
+Qed.
+
+Lemma c06_total : forall (T : Type) (NT : Num T) (f : T -> res T) (b : bounds T) (tol : T) (cap : nat),
+  (forall x, no_panic (f x)) ->
+  no_panic (bisection f b tol cap) /\
+  no_panic (bis_loop f tol cap cap (bis_start b)) /\
+  (forall r, bis_loop f tol cap cap (bis_start b) = Ok r -> (bs_iter r <= cap)%nat).
+Proof.
+  intros T NT f b tol cap Hf. split; [|split].
+  - unfold bisection. destruct (init_out b); [discriminate|]. apply bisect_run_no_panic; exact Hf.
+  - apply bis_loop_no_panic; [exact Hf|]. cbn. lia.
+  - intros r H. apply bis_loop_iter_le in H; cbn in *; lia.
+Qed.
+
+(* the two polynomial types never panic *)
+Lemma eval_term_vars_no_panic {T} {NT : Num T} (vs : list (name * T)) : forall acc e, no_panic (eval_term_vars acc vs e).
+Proof.
+  induction vs as [|[v p] vs IH]; intros acc e; cbn [eval_term_vars]; [discriminate|].
+  destruct (lookup v e); [apply IH|discriminate].
+Qed.
+
+Lemma eval_inter_from_no_panic {T} {NT : Num T} (ts : list (term T)) : forall acc e, no_panic (eval_inter_from acc ts e).
+Proof.
+  induction ts as [|t ts IH]; intros acc e; cbn [eval_inter_from]; [discriminate|].
+  destruct (eval_term_vars (t_coef t) (t_vars t) e) as [v|x|w] eqn:E; [apply IH|discriminate|].
+  exfalso. exact (eval_term_vars_no_panic _ _ _ w E).
+Qed.
+
+Lemma i_eval_no_panic {T} {NT : Num T} (p : ipoly T) x : no_panic (i_eval_univariate p x).
+Proof.
+  unfold i_eval_univariate, eval_inter.
+  destruct (i_vars p) as [|v [|v' vs]]; try apply eval_inter_from_no_panic. discriminate.
+Qed.
+
+Lemma i_deriv_no_panic {T} {NT : Num T} (p : ipoly T) : no_panic (i_derivate_univariate p).
+Proof. unfold i_derivate_univariate. destruct (i_vars p) as [|v [|v' vs]]; discriminate. Qed.
+
+Lemma bisection_poly_no_panic {T} {NT : Num T} {P} (evalu : P -> T -> res T) (deriv : P -> res P) p b tol cap mode :
+  (forall q x, no_panic (evalu q x)) -> (forall q, no_panic (deriv q)) ->
+  no_panic (bisection_poly evalu deriv p b tol cap mode).
+Proof.
+  intros He Hd. unfold bisection_poly. destruct (init_out b); [discriminate|].
+  apply bind_no_panic.
+  - unfold target. destruct mode; [apply Hd|discriminate].
+  - intros q _. apply bisect_run_no_panic. apply He.
+Qed.
+
+Lemma c06_total_poly : forall (T : Type) (NT : Num T) (b : bounds T) (tol : T) (cap : nat) (mode : bool),
+  (forall p : spoly T, no_panic (s_bisection p b tol cap mode)) /\
+  (forall p : ipoly T, no_panic (i_bisection p b tol cap mode)).
+Proof.
+  intros. split; intro p; apply bisection_poly_no_panic.
+  - intros q x. discriminate.
+  - intros q. discriminate.
+  - intros q x. apply i_eval_no_panic.
+  - intros q. apply i_deriv_no_panic.
+Qed.
+
+(* ------------------------------------------------------------------------- *)
+(* the sign change stays inside; the bracket is halved                        *)
+(* ------------------------------------------------------------------------- *)
+Definition Isc (f : R -> res R) (lo hi : R) (strict : Prop) (s : bstate R) : Prop :=
+  Ibr lo hi s /\ exists a b, f (bs_lower s) = Ok a /\ f (bs_upper s) = Ok b /\ a * b <= 0 /\ (strict -> a * b < 0).
+
+Lemma same_sign (a v : R) : 0 < a * v -> (0 < a /\ 0 < v) \/ (a < 0 /\ v < 0).
+Proof.
+  intro H.
+  destruct (Rtotal_order a 0) as [Ha|[Ha|Ha]]; destruct (Rtotal_order v 0) as [Hv|[Hv|Hv]];
+    subst; try (rewrite ?Rmult_0_l, ?Rmult_0_r in H; lra); try tauto; exfalso; nra.
+Qed.
+
+Lemma Isc_step f tol cap lo hi strict s s' b :
+  Isc f lo hi strict s -> bis_body f tol cap s = Ok (s', b) -> Isc f lo hi strict s'.
+Proof.
+  intros (Hbr & a & c & Ha & Hc & Hac & Hst) H.
+  pose proof (proj1 (Ibr_step f tol cap lo hi s s' b Hbr H)) as Hbr'.
+  apply bis_body_R in H. destruct H as (vl & vm & Hl & Hm & _ & Hcase).
+  rewrite Ha in Hl. injection Hl as <-.
+  split; [exact Hbr'|].
+  destruct Hcase as [(T & L & U & _)|[(T & L & U & _)|(_ & L & U & _)]]; rewrite L, U.
+  - exists a, vm. repeat split; try assumption; lra.
+  - exists vm, c. split; [assumption|]. split; [assumption|].
+    (* a and vm have the same strict sign *)
+    assert (Hs : vm * c <= 0 /\ (a * c < 0 -> vm * c < 0)).
+    { destruct (same_sign a vm T) as [[P1 P2]|[P1 P2]]; split; try intro; nra. }
+    destruct Hs as [Hs1 Hs2]. split; [exact Hs1|]. intro St. apply Hs2. apply Hst. exact St.
+  - exists a, c. repeat split; assumption.
+Qed.
+
+Lemma c06_bracket_keeps_sign_change : forall (f : R -> res R) lo init hi tol cap r vlo vhi,
+  lo <= hi -> f lo = Ok vlo -> f hi = Ok vhi -> vlo * vhi <= 0 ->
+  bis_loop f tol cap cap (bis_start {| b_lower := lo; b_init := init; b_upper := hi |}) = Ok r ->
+  lo <= bs_lower r /\ bs_lower r <= bs_upper r /\ bs_upper r <= hi /\
+  bs_lower r <= bs_x r <= bs_upper r /\
+  exists a b, f (bs_lower r) = Ok a /\ f (bs_upper r) = Ok b /\ a * b <= 0 /\ (vlo * vhi < 0 -> a * b < 0).
+Proof.
+  intros f lo init hi tol cap r vlo vhi Hle Hlo Hhi Hs Hl.
+  destruct (bis_loop_last f tol cap (Isc f lo hi (vlo * vhi < 0))) with (fuel := cap)
+    (s := bis_start {| b_lower := lo; b_init := init; b_upper := hi |}) (r := r) as (s0 & Hs0 & Hb).
+  - intros s s' Hi Hb. exact (Isc_step f tol cap lo hi _ s s' false Hi Hb).
+  - split; [apply bis_start_Ibr; exact Hle|]. exists vlo, vhi. cbn. repeat split; try assumption. tauto.
+  - exact Hl.
+  - pose proof (Isc_step f tol cap lo hi _ s0 r true Hs0 Hb) as ((A & B & C) & a & b & Ha & Hb' & Hab & Hst).
+    destruct (Ibr_step f tol cap lo hi s0 r true (proj1 Hs0) Hb) as (_ & D & _).
+    repeat (split; [assumption|]). exists a, b. repeat split; assumption.
+Qed.
+
+(* width: halved by every body that does not hit a zero product *)
+Definition Iw (lo hi : R) (s : bstate R) : Prop := bs_upper s - bs_lower s = (hi - lo) / 2 ^ bs_iter s.
+
+Lemma pow2_pos n : 0 < 2 ^ n.
+Proof. apply pow_lt. lra. Qed.
+
+Lemma Iw_step (f : R -> res R) tol cap lo hi s s' b :
+  Iw lo hi s -> bis_body f tol cap s = Ok (s', b) ->
+  bs_upper s' - bs_lower s' = (hi - lo) / 2 ^ (if bs_exact s' then bs_iter s' else S (bs_iter s')).
+Proof.
+  unfold Iw. intros Hw H. apply bis_body_R in H. destruct H as (vl & vm & _ & _ & Hi & Hcase).
+  pose proof (bis_mid_R s) as Hm. pose proof (pow2_pos (bs_iter s)) as Hp.
+  destruct Hcase as [(_ & L & U & _ & E)|[(_ & L & U & _ & E)|(_ & L & U & E & _)]]; rewrite L, U, E, Hi.
+  - rewrite Hm. cbn [pow]. replace ((bs_lower s + bs_upper s) / 2 - bs_lower s) with ((bs_upper s - bs_lower s) / 2) by lra.
+    rewrite Hw. field. lra.
+  - rewrite Hm. cbn [pow]. replace (bs_upper s - (bs_lower s + bs_upper s) / 2) with ((bs_upper s - bs_lower s) / 2) by lra.
+    rewrite Hw. field. lra.
+  - exact Hw.
+Qed.
+
+(* PARTIAL (converse half of C06).  Proved: whenever the loop terminates with a state r
+   (by whichever exit), the final bracket has width (hi-lo)/2^k with k = the number of
+   halvings, still holds a sign change of g and hence (g continuous) a root z, and the
+   candidate is within (hi-lo)/2^iter of z; on the `exact` exit the candidate is a root.
+   Missing: that under "moderate scale and ample budget" the tolerance exit actually
+   fires before the cap and that the residual gate then passes — this depends on the
+   float stopping rule (relative change in percent, underflow for a root at 0) and is
+   decided by the oracle of the correspondence check, which found two classes where it
+   fails (F-C06-LOOSE-TOL, F-C06-STALE-ZERO). *)
+Lemma c06_finds_root_partial : forall (g : R -> R) lo init hi tol cap r,
+  continuity g -> lo <= hi -> g lo * g hi <= 0 ->
+  bis_loop (fun x => Ok (g x)) tol cap cap (bis_start {| b_lower := lo; b_init := init; b_upper := hi |}) = Ok r ->
+  bs_upper r - bs_lower r = (hi - lo) / 2 ^ (if bs_exact r then bs_iter r else S (bs_iter r)) /\
+  (bs_exact r = true -> g (bs_x r) = 0) /\
+  exists z, g z = 0 /\ lo <= z <= hi /\ bs_lower r <= z <= bs_upper r /\
+            Rabs (bs_x r - z) <= (hi - lo) / 2 ^ bs_iter r.
+Proof.
+  intros g lo init hi tol cap r Hc Hle Hs Hl.
+  set (f := fun x => Ok (g x)) in *.
+  (* invariants: sign change and width *)
+  destruct (bis_loop_last f tol cap (fun s => Isc f lo hi False s /\ Iw lo hi s)) with (fuel := cap)
+    (s := bis_start {| b_lower := lo; b_init := init; b_upper := hi |}) (r := r) as (s0 & (Hsc0 & Hw0) & Hb).
+  - intros s s' (Hi & Hw) Hb. split.
+    + exact (Isc_step f tol cap lo hi _ s s' false Hi Hb).
+    + pose proof (Iw_step f tol cap lo hi s s' false Hw Hb) as H.
+      assert (Hex : bs_exact s' = false).
+      { apply bis_body_ok in Hb. destruct Hb as (vl & vm & _ & _ & _ & Hb & _).
+        symmetry in Hb. apply orb_false_elim in Hb. destruct Hb as [Hb _].
+        apply orb_false_elim in Hb. tauto. }
+      rewrite Hex in H. unfold Iw. cbn [bs_next bs_iter bs_lower bs_upper]. exact H.
+  - split.
+    + split; [apply bis_start_Ibr; exact Hle|]. exists (g lo), (g hi). cbn. repeat split; try assumption; tauto.
+    + unfold Iw, bis_start. cbn. field.
+  - exact Hl.
+  - pose proof (Iw_step f tol cap lo hi s0 r true Hw0 Hb) as Hw.
+    pose proof (Isc_step f tol cap lo hi _ s0 r true Hsc0 Hb) as ((A & B & C) & a & b & Ha & Hb' & Hab & _).
+    destruct (Ibr_step f tol cap lo hi s0 r true (proj1 Hsc0) Hb) as (_ & (D1 & D2) & (D3 & D4)).
+    split; [exact Hw|]. split.
+    + intro Hex. apply bis_body_R in Hb. destruct Hb as (vl & vm & Hvl & Hvm & _ & Hcase).
+      unfold f in Hvl, Hvm. injection Hvl as <-. injection Hvm as <-.
+      destruct Hcase as [(_ & _ & _ & _ & E)|[(_ & _ & _ & _ & E)|(_ & _ & _ & _ & [(Z & X)|(_ & Z & X)])]];
+        try congruence; rewrite X; exact Z.
+    + unfold f in Ha, Hb'. injection Ha as <-. injection Hb' as <-.
+      destruct (IVT_cor g (bs_lower r) (bs_upper r) Hc B Hab) as (z & (Z1 & Z2) & Z3).
+      exists z. split; [exact Z3|]. split; [lra|]. split; [lra|].
+      (* the candidate and z both lie in the bracket of the last body's start state *)
+      destruct Hsc0 as ((A0 & B0 & C0) & _). unfold Iw in Hw0.
+      assert (Hi : bs_iter r = bs_iter s0).
+      { apply bis_body_ok in Hb. destruct Hb as (vl & vm & _ & _ & Hi & _). exact Hi. }
+      rewrite Hi, <- Hw0.
+      assert (bs_lower s0 <= bs_lower r /\ bs_upper r <= bs_upper s0).
+      { pose proof (Ibr_step f tol cap (bs_lower s0) (bs_upper s0) s0 r true) as H.
+        destruct H as ((H1 & H2 & H3) & _); [unfold Ibr; lra|exact Hb|]. lra. }
+      apply Rabs_le. lra.
+Qed.
+
+(* a root at the lower end is returned at once (the repair e42ded6) *)
+Lemma c06_root_at_lower_end : forall (f : R -> res R) lo init hi tol cap vm,
+  lo <= init <= hi -> f lo = Ok 0 -> f ((lo + hi) / 2) = Ok vm -> (0 < cap)%nat ->
+  bisection f {| b_lower := lo; b_init := init; b_upper := hi |} tol cap = Ok lo.
+Proof.
+  intros f lo init hi tol cap vm Hin Hlo Hm Hcap.
+  unfold bisection, init_out. cbn [b_lower b_init b_upper nltb RNum].
+  replace (Rltb init lo) with false by (symmetry; apply Rltb_false; lra).
+  replace (Rltb hi init) with false by (symmetry; apply Rltb_false; lra).
+  cbn [orb]. unfold bisect_run.
+  destruct cap as [|k]; [lia|].
+  cbn [bis_loop]. unfold bis_body, bis_start.
+  cbn [bs_lower bs_upper bs_x bs_iter bs_err b_lower b_init b_upper].
+  change (ndiv (nadd lo hi) ntwo) with ((lo + hi) / 2).
+  rewrite Hlo, Hm. cbn [bind nmul nltb neqb n0 RNum].
+  replace (0 * vm) with 0 by ring.
+  replace (Rltb 0 0) with false by (symmetry; apply Rltb_false; lra).
+  replace (Reqb 0 0) with true by (symmetry; apply Reqb_true; reflexivity).
+  cbn [bs_exact orb bs_iter bs_x bind Nat.leb].
+  rewrite Hlo. cbn [bind nltb nabs RNum]. rewrite Rabs_R0, gate_R.
+  replace (Rltb 0 (1 / 10000)) with true by (symmetry; apply Rltb_true; lra).
+  reflexivity.
+Qed.
+
+(* ------------------------------------------------------------------------- *)
+(* the dense polynomial type over R: value, derivative, continuity            *)
+(* ------------------------------------------------------------------------- *)
+Fixpoint psum (x : R) (i : nat) (cs : list R) : R :=
+  match cs with
+  | [] => 0
+  | c :: cs' => c * x ^ i + psum x (S i) cs'
+  end.
+
+Lemma fold_terms_R x cs : forall i a,
+  fold_left Rplus (eval_terms_from x i cs) a = a + psum x i cs.
+Proof.
+  induction cs as [|c cs IH]; intros i a; cbn [eval_terms_from fold_left psum].
+  - ring.
+  - rewrite IH. cbn [nmul RNum]. rewrite npowi_R_nat. ring.
+Qed.
+
+Lemma eval_simple_R (p : spoly R) x : eval_simple p x = psum x 0 (s_coefs p).
+Proof.
+  unfold eval_simple. cbn [nadd nsum0 RNum]. rewrite fold_terms_R. ring.
+Qed.
+
+Lemma psum_is_derive cs : forall i x,
+  is_derive (fun y => psum y (S i) cs) x (psum x i (deriv_coefs_from (S i) cs)).
+Proof.
+  induction cs as [|c cs IH]; intros i x; cbn [psum deriv_coefs_from].
+  - apply (is_derive_const (V := R_NormedModule) 0 x).
+  - apply (is_derive_plus (V := R_NormedModule)); [|apply IH].
+    cbn [nmul RNum]. rewrite nofnat_R.
+    auto_derive; [exact I|]. cbn [Nat.pred]. rewrite S_INR. ring.
+Qed.
+
+Lemma eval_simple_is_derive (p : spoly R) x :
+  is_derive (eval_simple p) x (eval_simple (simple_derivative p) x).
+Proof.
+  apply (is_derive_ext (fun y => psum y 0 (s_coefs p))); [intro y; symmetry; apply eval_simple_R|].
+  rewrite eval_simple_R. unfold simple_derivative. cbn [s_coefs].
+  destruct (s_coefs p) as [|c0 cs]; cbn [psum].
+  - apply (is_derive_const (V := R_NormedModule) 0 x).
+  - replace (psum x 0 (deriv_coefs_from 1 cs)) with (plus 0 (psum x 0 (deriv_coefs_from 1 cs))) by (unfold plus; cbn; ring).
+    apply (is_derive_plus (V := R_NormedModule)); [|apply psum_is_derive].
+    auto_derive; [exact I|]. ring.
+Qed.
+
+Lemma eval_simple_continuity (p : spoly R) : continuity (eval_simple p).
+Proof.
+  intro x. apply derivable_continuous_pt.
+  exists (eval_simple (simple_derivative p) x). apply is_derive_Reals. apply eval_simple_is_derive.
+Qed.
+
+(* ------------------------------------------------------------------------- *)
+(* the wrappers for the two polynomial types                                  *)
+(* ------------------------------------------------------------------------- *)
+Lemma bisection_poly_sound {P} (evalu : P -> R -> res R) (deriv : P -> res P) p lo init hi tol cap mode x :
+  bisection_poly evalu deriv p {| b_lower := lo; b_init := init; b_upper := hi |} tol cap mode = Ok x ->
+  lo <= x <= hi /\ exists q v, target deriv p mode = Ok q /\ evalu q x = Ok v /\ Rabs v < 1 / 10000.
+Proof.
+  unfold bisection_poly. destruct (init_out _) eqn:Ei; [discriminate|]. apply init_in in Ei.
+  destruct (target deriv p mode) as [q|e|w]; cbn [bind]; try discriminate.
+  intro H. apply bisect_run_sound in H; [|lra]. destruct H as (Hx & v & Hv & Hg).
+  split; [exact Hx|]. exists q, v. repeat split; assumption.
+Qed.
+
+(* SimplePolynomial: g = p in Root mode, p' in Extrema mode *)
+Definition s_target (p : spoly R) (extrema : bool) : spoly R := if extrema then simple_derivative p else p.
+
+Lemma c06_sound_simple : forall (p : spoly R) lo init hi tol cap mode x,
+  s_bisection p {| b_lower := lo; b_init := init; b_upper := hi |} tol cap mode = Ok x ->
+  lo <= x <= hi /\ Rabs (eval_simple (s_target p mode) x) < 1 / 10000.
+Proof.
+  intros p lo init hi tol cap mode x H. apply bisection_poly_sound in H.
+  destruct H as (Hx & q & v & Hq & Hv & Hg). split; [exact Hx|].
+  unfold s_eval_univariate in Hv. injection Hv as <-.
+  destruct mode; cbn [target s_derivate_univariate s_target] in *; injection Hq as <-; exact Hg.
+Qed.
+
+Lemma c06_sound_inter : forall (p : ipoly R) lo init hi tol cap mode x,
+  i_bisection p {| b_lower := lo; b_init := init; b_upper := hi |} tol cap mode = Ok x ->
+  lo <= x <= hi /\ exists q v, (if mode then i_derivate_univariate p else Ok p) = Ok q /\
+                               i_eval_univariate q x = Ok v /\ Rabs v < 1 / 10000.
+Proof.
+  intros p lo init hi tol cap mode x H. exact (bisection_poly_sound _ _ p lo init hi tol cap mode x H).
+Qed.
+
+(* non-vacuity witnesses used by Properties/C06.v *)
+Definition px2m4 : spoly R := {| s_coefs := [-4; 0; 1]; s_var := Some 120%N |}.
+
+Lemma px2m4_eval x : eval_simple px2m4 x = x * x - 4.
+Proof. rewrite eval_simple_R. cbn. ring. Qed.
+
+Lemma c06_example_lower_end :
+  s_bisection px2m4 {| b_lower := 2; b_init := 3; b_upper := 5 |} (1 / 100000) 100 false = Ok 2.
+Proof.
+  unfold s_bisection, bisection_poly. cbn [target bind].
+  replace (init_out _) with false.
+  2:{ symmetry. unfold init_out. cbn [b_lower b_init b_upper nltb RNum].
+      apply orb_false_intro; apply Rltb_false; lra. }
+  pose proof (c06_root_at_lower_end (s_eval_univariate px2m4) 2 3 5 (1 / 100000) 100
+                (eval_simple px2m4 ((2 + 5) / 2))) as H.
+  unfold bisection in H.
+  replace (init_out _) with false in H.
+  2:{ symmetry. unfold init_out. cbn [b_lower b_init b_upper nltb RNum].
+      apply orb_false_intro; apply Rltb_false; lra. }
+  apply H; [lra| |reflexivity|lia].
+  unfold s_eval_univariate. rewrite px2m4_eval. f_equal. ring.
 Qed.
